@@ -804,6 +804,109 @@ Proof.
     rewrite declare_lookup, literal_resolve by assumption. reflexivity.
 Qed.
 
+(* ---- shadowed declarations (finding: `inherit` copies the source's important flag) ------------- *)
+(* KnownClass: the lower-precedence attribute resolves to an attribute flagged important *)
+Definition shadow_important (anc : list (list attr)) (tag : EId) (p : AId) (va : string) : bool :=
+  match resolve_value anc tag p va false with Some y => a_imp y | None => false end.
+
+Theorem shadowed_attr_guarded anc x p va vc ic l1 l2 c1 c2 :
+  silent p x = true -> x_attrs x = l1 ++ l2 -> x_css x = c1 ++ c2 ->
+  is_presentation p = true -> attr_skipped (x_ignore_ids x) p va = false ->
+  literal (x_tag x) p vc = true ->
+  shadow_important anc (x_tag x) p va = false ->
+  lookup p (build_attrs anc (with_css (with_attrs x (l1 ++ (p, va) :: l2)) (c1 ++ dc p vc ic :: c2)))
+  = lookup p (build_attrs anc (with_css x (c1 ++ dc p vc ic :: c2))).
+Proof.
+  intros Hs Ea Ec Hp Hk Hlit Hsh.
+  pose proof (sources_lookup anc x p (Some va) (Some (vc, ic)) None l1 l2 c1 c2 [] (x_style x)
+                Hs Ea Ec eq_refl Hp) as HA.
+  pose proof (sources_lookup anc x p None (Some (vc, ic)) None l1 l2 c1 c2 [] (x_style x)
+                Hs Ea Ec eq_refl Hp) as HB.
+  unfold opt_ins in HA, HB. simpl in HA, HB. rewrite <- Ea in HB.
+  assert (E1 : with_style (with_css (with_attrs x (l1 ++ (p, va) :: l2)) (c1 ++ dc p vc ic :: c2)) (x_style x)
+               = with_css (with_attrs x (l1 ++ (p, va) :: l2)) (c1 ++ dc p vc ic :: c2)) by reflexivity.
+  assert (E2 : with_style (with_css (with_attrs x (x_attrs x)) (c1 ++ dc p vc ic :: c2)) (x_style x)
+               = with_css x (c1 ++ dc p vc ic :: c2)) by (destruct x; reflexivity).
+  rewrite E1 in HA. rewrite E2 in HB. unfold lookup.
+  rewrite HA by (intros v0 Hv; inversion Hv; subst; exact Hk).
+  rewrite HB by (intros v0 Hv; discriminate).
+  rewrite (literal_resolve anc (x_tag x) p vc ic Hlit). unfold shadow_important in Hsh.
+  destruct (resolve_value anc (x_tag x) p va false) as [y|]; simpl; [|reflexivity].
+  rewrite Hsh. reflexivity.
+Qed.
+
+Local Open Scope string_scope.
+Theorem shadowed_attr_refuted :
+  exists anc x p va vc,
+    silent p x = true /\ is_presentation p = true /\ literal (x_tag x) p vc = true /\
+    attr_skipped (x_ignore_ids x) p va = false /\
+    shadow_important anc (x_tag x) p va = true /\
+    lookup p (build_attrs anc (with_css (with_attrs x [(p, va)]) [dc p vc false]))
+    <> lookup p (build_attrs anc (with_css x [dc p vc false])).
+Proof.
+  exists [[mk A_Fill "green" true]], (xe E_Path false [] [] []), A_Fill, "inherit", "red".
+  repeat split; try (vm_compute; reflexivity). vm_compute. discriminate.
+Qed.
+Local Close Scope string_scope.
+
+(* ---- font-size: explicit `inherit` re-resolves the copied *specified* value ---------------------- *)
+Local Open Scope Q_scope.
+Lemma fs_step_abs dpi a b v : fs_relative v = false -> fs_step dpi a v = fs_step dpi b v.
+Proof. destruct v as [n|u n|n|n|n]; simpl; try discriminate; intros _; [|destruct u]; reflexivity. Qed.
+Lemma font_size_snoc dpi base l o :
+  font_size dpi base (l ++ [o]) = match o with Some v => fs_step dpi (font_size dpi base l) v | None => font_size dpi base l end.
+Proof. unfold font_size. rewrite fold_left_app. simpl. reflexivity. Qed.
+Lemma font_size_nones dpi base k : font_size dpi base (repeat None k) = base.
+Proof. unfold font_size. induction k as [|k IH]; simpl; [reflexivity | exact IH]. Qed.
+Lemma font_size_app dpi base l m : font_size dpi base (l ++ m) = font_size dpi (font_size dpi base l) m.
+Proof. unfold font_size. apply fold_left_app. Qed.
+
+(* the element whose font-size says `inherit` (= a copy of the nearest specified value v, k elements
+   up) against the same element saying nothing *)
+Theorem fs_inherit_guarded dpi base c1 v k :
+  fs_relative v = false ->
+  font_size dpi base (c1 ++ Some v :: repeat None k ++ [Some v])
+  == font_size dpi base (c1 ++ Some v :: repeat None k ++ [None]).
+Proof.
+  intro H.
+  replace (c1 ++ Some v :: repeat None k ++ [Some v]) with ((c1 ++ Some v :: repeat None k) ++ [Some v])
+    by (rewrite <- app_assoc; reflexivity).
+  replace (c1 ++ Some v :: repeat None k ++ [None]) with ((c1 ++ Some v :: repeat None k) ++ [None])
+    by (rewrite <- app_assoc; reflexivity).
+  rewrite !font_size_snoc.
+  replace (c1 ++ Some v :: repeat None k) with ((c1 ++ [Some v]) ++ repeat None k)
+    by (rewrite <- app_assoc; reflexivity).
+  rewrite font_size_app, font_size_nones, font_size_snoc.
+  rewrite (fs_step_abs dpi _ (font_size dpi base c1) v H). reflexivity.
+Qed.
+Theorem fs_inherit_refuted :
+  exists dpi base c1 v k, fs_relative v = true /\
+    ~ font_size dpi base (c1 ++ Some v :: repeat None k ++ [Some v])
+      == font_size dpi base (c1 ++ Some v :: repeat None k ++ [None]).
+Proof.
+  exists 96, 12, [Some (FsPx 20)], (FsPct 150), O. split; [reflexivity|].
+  intro H. vm_compute in H. discriminate.
+Qed.
+Local Close Scope Q_scope.
+
+(* ---- the generated classes against the specification's property table --------------------------- *)
+Lemma noninherit_table_spec : forall a, noninherit_entry_ok a = true.
+Proof. apply forall_AId. vm_compute. reflexivity. Qed.
+Lemma initial_table_spec : forall a, initial_entry_ok a = true.
+Proof. apply forall_AId. vm_compute. reflexivity. Qed.
+Lemma noninherit_spec a :
+  is_presentation a = true -> allows_inherit_value a = true -> is_non_inheritable a = spec_noninherited a.
+Proof.
+  intros H1 H2. pose proof (noninherit_table_spec a) as H. unfold noninherit_entry_ok in H.
+  rewrite H1, H2 in H. simpl in H. apply eqb_prop. exact H.
+Qed.
+Lemma initial_spec a : inherit_default a = spec_initial a.
+Proof.
+  pose proof (initial_table_spec a) as H. unfold initial_entry_ok, opt_string_eqb in H.
+  destruct (inherit_default a) as [x|], (spec_initial a) as [y|]; try discriminate; [|reflexivity].
+  apply String.eqb_eq in H. congruence.
+Qed.
+
 (* ---- units ------------------------------------------------------------------------------------------ *)
 Local Open Scope Q_scope.
 Lemma unit_in n dpi : len_In n dpi == len_Px (n * dpi) dpi.
